@@ -3,8 +3,12 @@ CHECKS["C01"] = dict(
     engine="A", level="model_checking", technique="bounded symbolic execution of the real eager rules on z3-valued tensor cells + SMT validity query per expression (z3), counterexample replayed on float64",
     text="For every expression of the enumerated families (templates over 5 carrier themes, depth 1 exhaustive / depth 2 seeded subset in quick; deeper in thorough; named inputs of sizes 1-4) the real eager evaluation is run on symbolic cells and z3 decides result == textbook oracle at every point for ALL tensor contents. Bounded by structure, unbounded in contents.",
     note=TB)
+CHECKS["C15"] = dict(
+    engine="A+FP", level="proof", technique="SMT validity (z3 NRA/LIA) of each algebraic table entry with the real op objects executed on unconstrained symbolic scalars/arrays; z3 FloatingPoint theory for NaN-freedom of safediv/safesub/reciprocal regenerated from source",
+    text="Every entry of UNITS / DISTRIBUTIVE_OPS / BINARY_INVERSES / SAFE_BINARY_INVERSES / UNARY_INVERSES / PRODUCT_TO_POWER (read from the live module) is decided as a validity query over ALL operands of its carrier through both the scalar default and the array registration (shapes () (3,) (3,2), mixed python-scalar/array dispatch); scalar/0-d/array agreement per op; exact -inf limits of logaddexp/logsumexp/log-space and max-plus einsum; NaN-freedom of the three safe kernels over all of float64 (FP theory). Unbounded in operand values (a proof per obligation: obligations == discharged), bounded in shapes and power n<=6|10.",
+    note=TB + "; libm (math.exp/log/...) modelled by the SV algebra; accuracy near the float range boundary of exp/log kernels and NaN inputs outside the claim; `sample` decided on finite log values only")
 _pending = "check not built yet in this session (work in progress; will be claimed when its harness lands)"
-for p in ["C02", "C03", "C04", "C05", "C06", "C08", "C09", "C10", "C11", "C12", "C14", "C15", "C16", "C17", "C18", "C19", "C20"]:
+for p in ["C02", "C03", "C04", "C05", "C06", "C08", "C09", "C10", "C11", "C12", "C14", "C16", "C17", "C18", "C19", "C20"]:
     NA[p] = _pending
 NA["C07"] = "quantifies over heap histories (object identity, weak references, gc, id reuse): CPython runtime semantics with no SMT encoding of the real code; see DESIGN.md §4"
 NA["C13"] = "every operation goes through cholesky/triangular solves/QR; the obligations hold only modulo the factorization equations and z3/cvc5 return unknown beyond 1x1 blocks (measured, DESIGN.md §4/§7)"
